@@ -64,7 +64,7 @@ dirty; `secretNew` — even a failing one — cleans it. -/
 theorem kmsDecrypt_leaves_dirty :
     dirtyBufs (kmsDecrypt (.kms 7) (World.init 0)).2 = 1 ∧
     dirtyBufs ((do let (b, m) ← kmsDecrypt (.kms 7); secretNew b m) { World.init 0 with faults := [.ok, .err] }).2 = 0 := by
-  decide
+  decide +kernel
 
 /-! ### non-vacuity: a history that allocates plaintext buffers on the paths named by the property -/
 
@@ -89,6 +89,6 @@ private def demo2 : List Op :=
 
 example : ((runOps (World.init (5 * nsPerSec)) demo2).1.drop 4 = [.payload 7, .error .alloc]) ∧
     (runOps (World.init (5 * nsPerSec)) demo2).2.bufs.length = 7 ∧
-    dirtyBufs (runOps (World.init (5 * nsPerSec)) demo2).2 = 0 := by decide
+    dirtyBufs (runOps (World.init (5 * nsPerSec)) demo2).2 = 0 := by decide +kernel
 
 end AsherahVerif.Props.C10
